@@ -86,7 +86,11 @@ pub fn replay(bins: &Bins, file: &str, _verif: &str) -> i32 {
     if !recorded.is_empty() && recorded != runs[0].res.trace_lines() {
         println!("note: the trace differs from the recorded one (the code under test has changed since the violation was recorded)");
     }
-    let jf = if prop == "C14" && scen.name.starts_with("same-target") { Some(c14::judge_same_target as fn(&Worker, &Scenario, &Exec) -> Judgement) } else { judge_for(&prop) };
+    let jf = if prop == "C17" && scen.name.starts_with("gitignore-multi") {
+        Some(c17::judge_multi as fn(&Worker, &Scenario, &Exec) -> Judgement)
+    } else if prop == "C11" && scen.name.starts_with("first-source-without-fiemap") {
+        Some(c11::judge_later_sources as fn(&Worker, &Scenario, &Exec) -> Judgement)
+    } else if prop == "C14" && scen.name.starts_with("same-target") { Some(c14::judge_same_target as fn(&Worker, &Scenario, &Exec) -> Judgement) } else { judge_for(&prop) };
     match jf {
         Some(j) => {
             let jd = j(&w, &scen, &runs[0]);
